@@ -261,6 +261,8 @@ impl<'a> Namespace<'a> {
         if let Some(super_types) = self.supertypes_of_cache.get(symbol) {
             super_types
         } else {
+            #[cfg(feature = "verif-hooks")]
+            crate::haystack::verif_hooks::sched_point(1);
             let val = match self.get(symbol) {
                 Some(def) => {
                     if let Some(is_a_list) = def.get_list("is") {
@@ -285,9 +287,13 @@ impl<'a> Namespace<'a> {
                 None => Vec::default(),
             };
 
+            #[cfg(feature = "verif-hooks")]
+            crate::haystack::verif_hooks::sched_point(2);
             if !self.supertypes_of_cache.contains_key(symbol) {
                 self.supertypes_of_cache.insert(symbol.clone(), val);
             }
+            #[cfg(feature = "verif-hooks")]
+            crate::haystack::verif_hooks::sched_point(3);
             self.supertypes_of_cache.get(symbol).expect("Cached value")
         }
     }
@@ -398,6 +404,8 @@ impl<'a> Namespace<'a> {
         if let Some(inheritance) = self.inheritance_of_cache.get(symbol) {
             inheritance
         } else {
+            #[cfg(feature = "verif-hooks")]
+            crate::haystack::verif_hooks::sched_point(11);
             let val = if let Some(def) = self.get(symbol) {
                 let mut supertypes = HashSet::<&Dict>::new();
                 supertypes.insert(def);
@@ -406,9 +414,13 @@ impl<'a> Namespace<'a> {
             } else {
                 Vec::default()
             };
+            #[cfg(feature = "verif-hooks")]
+            crate::haystack::verif_hooks::sched_point(12);
             if !self.inheritance_of_cache.contains_key(symbol) {
                 self.inheritance_of_cache.insert(symbol.clone(), val);
             }
+            #[cfg(feature = "verif-hooks")]
+            crate::haystack::verif_hooks::sched_point(13);
             self.inheritance_of_cache.get(symbol).expect("Cached value")
         }
     }
